@@ -4,7 +4,6 @@ From Verif Require Import Base.Str Base.RangeSet Model.Split.
 Extraction Language OCaml.
 Extraction "Extract/m_split.ml"
   RangeSet.compress_lines RangeSet.expand RangeSet.contains RangeSet.isort RangeSet.dedup
-  Split.split_file Split.log_of_attrs Split.committed Split.unstaged Split.pure_ins
-  Split.wf3 Split.shift_consistent Split.shift_consistent_struct Split.Known_C04
-  Split.no_hidden Split.tail_only Split.offsets_ok
+  Split.split_file Split.log_of_attrs Split.committed Split.unstaged Split.hunks_of
+  Split.wf3 Split.Known_C04 Split.no_hidden Split.to_commit_line
   Split.attrs_wfb Split.spec_verdict Split.run_spec.
